@@ -289,31 +289,13 @@ func (te *TemplateEngine) parseTemplate(template *Template) error {
 		baseName := extendsMatches[1]
 		baseTemplate, err := te.getTemplateInternal(baseName)
 		if err == nil {
+			// 块重写在渲染时根据子模板自身的块表解析（见 renderTemplateWithOverrides），
+			// 加载子模板不再修改（可能被其他子模板共享的）父模板
 			template.Parent = baseTemplate
-			// 处理块重写
-			te.processBlockOverrides(template, baseTemplate)
 		}
 	}
 
 	return nil
-}
-
-// processBlockOverrides 处理块重写
-func (te *TemplateEngine) processBlockOverrides(childTemplate, parentTemplate *Template) {
-	// 遍历子模板的块定义，检查是否重写父模板的块
-	for blockName, childBlock := range childTemplate.DefinedBlocks {
-		if parentBlock, exists := parentTemplate.DefinedBlocks[blockName]; exists {
-			// 标记父模板块被重写
-			verifPoint("engine.override.write")
-			parentBlock.IsOverridden = true
-			parentBlock.Content = childBlock.Content
-		}
-	}
-
-	// 递归处理父模板的父模板
-	if parentTemplate.Parent != nil {
-		te.processBlockOverrides(childTemplate, parentTemplate.Parent)
-	}
 }
 
 // RenderToDocument 渲染模板到新文档
@@ -355,12 +337,27 @@ func (te *TemplateEngine) RenderToDocument(templateName string, data *TemplateDa
 
 // renderTemplate 渲染模板
 func (te *TemplateEngine) renderTemplate(template *Template, data *TemplateData) (string, error) {
+	return te.renderTemplateWithOverrides(template, data, nil)
+}
+
+// renderTemplateWithOverrides 渲染模板；overrides 为继承链上更派生的模板对块的重写（块名 -> 内容）。
+// 模板在加载后不再被修改：重写只存在于本次渲染的参数中，因此渲染结果只取决于被渲染的模板本身。
+func (te *TemplateEngine) renderTemplateWithOverrides(template *Template, data *TemplateData, overrides map[string]string) (string, error) {
 	var content string
 
 	// 处理继承：如果有父模板，使用父模板作为基础
 	if template.Parent != nil {
+		// 当前模板定义的块重写父模板的同名块；更派生的模板的重写优先
+		merged := make(map[string]string, len(template.DefinedBlocks)+len(overrides))
+		for blockName, block := range template.DefinedBlocks {
+			merged[blockName] = block.DefaultContent
+		}
+		for blockName, blockContent := range overrides {
+			merged[blockName] = blockContent
+		}
+
 		// 渲染父模板作为基础内容
-		parentContent, err := te.renderTemplate(template.Parent, data)
+		parentContent, err := te.renderTemplateWithOverrides(template.Parent, data, merged)
 		if err != nil {
 			return "", err
 		}
@@ -374,7 +371,7 @@ func (te *TemplateEngine) renderTemplate(template *Template, data *TemplateData)
 	}
 
 	// 渲染块定义
-	content = te.renderBlocks(content, template, data)
+	content = te.renderBlocks(content, template, data, overrides)
 
 	// 渲染变量
 	content = te.renderVariables(content, data.Variables)
@@ -410,7 +407,7 @@ func (te *TemplateEngine) applyBlockOverrides(content string, template *Template
 }
 
 // renderBlocks 渲染块定义
-func (te *TemplateEngine) renderBlocks(content string, template *Template, data *TemplateData) string {
+func (te *TemplateEngine) renderBlocks(content string, template *Template, data *TemplateData, overrides map[string]string) string {
 	blockPattern := regexp.MustCompile(`(?s)\{\{#block\s+"([^"]+)"\}\}(.*?)\{\{/block\}\}`)
 
 	return blockPattern.ReplaceAllStringFunc(content, func(match string) string {
@@ -419,8 +416,13 @@ func (te *TemplateEngine) renderBlocks(content string, template *Template, data 
 			blockName := matches[1]
 			blockContent := matches[2]
 
-			// 检查是否有定义的块
+			// 派生模板重写了这个块：使用重写的内容
 			verifPoint("engine.block.read")
+			if overridden, exists := overrides[blockName]; exists {
+				return overridden
+			}
+
+			// 检查是否有定义的块
 			if block, exists := template.DefinedBlocks[blockName]; exists {
 				// 如果块被重写，使用重写的内容，否则使用默认内容
 				if block.IsOverridden {
